@@ -154,6 +154,29 @@ pub fn m_replay_number_print() {
     assert!(back == Ok(n));
 }
 
+/// radix print under floating-point rounding natively: (NumberType code, the solver's N): the solver's error terms
+/// over-approximate double arithmetic, so the witness is looked for among N and the integers where doubles are
+/// sparsest (odd integers of 2^52..2^53, the top of the i32 / u32 ranges)
+#[cfg(not(kani))]
+pub fn m_replay_number_print_margin() {
+    let k: u8 = vany(); let x: f64 = vany();
+    vassume(k >= 1 && k <= 3 && x == x.trunc() && x >= 0.0 && x <= 9007199254740992.0);
+    let cfg = blank_config();
+    let s = Session::new();
+    let nt = match k { 1 => NumberType::Octal, 2 => NumberType::Hexadecimal, _ => NumberType::Binary };
+    let mut cands: Vec<f64> = alloc::vec![x, 2147483647.0, 4294967295.0, 4503599627370495.0, 9007199254740991.0, 9007199254740989.0];
+    let mut i = 0u32;
+    while i < 64 { cands.push(4503599627370497.0 + 2.0 * (i as f64) * 70368744177.0); i += 1; }
+    for c in cands.iter() {
+        if *c > 9007199254740992.0 { continue; }
+        let out = NumberItem(*c, nt).print(&cfg, &s);
+        let back = match k { 1 => i64::from_str_radix(out.trim_start_matches("0o"), 8), 2 => i64::from_str_radix(out.trim_start_matches("0x"), 16), _ => i64::from_str_radix(out.trim_start_matches("0b"), 2) };
+        assert!(back == Ok(*c as i64));
+    }
+}
+#[cfg(kani)]
+pub fn m_replay_number_print_margin() {}
+
 /// number_type_convert natively: (keyword index, value)
 pub fn m_replay_number_type_convert() {
     let w: u8 = vany(); let x: f64 = vany();
@@ -693,7 +716,7 @@ pub fn m_replay_wiring() {
     let want: u8 = vany();
     let cfg = real_config();
     let session = Session::new();
-    let words = ["to", "as", "in", "at", "eur", "hours", "days", "km", "hex", "binary", "octal", "date", "unix", "unixtime"];
+    let words = ["to", "as", "in", "at", "eur", "hours", "days", "km", "hex", "binary", "octal", "date", "unix", "unixtime", "TO", "HEX", "Hours", "Date", "AS", "In"];
     let usd = cfg.get_currency("usd".to_string()).expect("usd");
     let metre = { let mut found = None; for (_, g) in cfg.types.iter() { for (_, t) in g.iter() { if t.names.iter().any(|x| x == "m") { found = Some(t.clone()); } } } found.expect("unit m") };
     let day = NaiveDate::from_ymd_opt(2020, 1, 15).unwrap();
@@ -726,9 +749,9 @@ pub fn m_replay_wiring() {}
 pub fn m_replay_number_literal() {
     let conv: u8 = vany(); let sign: u8 = vany(); let ng: u8 = vany();
     let g0: u8 = vany(); let g1: u8 = vany(); let g2: u8 = vany(); let nf: u8 = vany();
-    vassume(conv <= 1 && sign <= 2 && ng >= 1 && ng <= 3 && g0 >= 1 && g0 <= 3 && g1 <= 3 && g2 <= 3 && nf <= 3);
+    vassume(conv <= 3 && sign <= 2 && ng >= 1 && ng <= 3 && g0 >= 1 && g0 <= 3 && g1 <= 3 && g2 <= 3 && nf <= 3);
     let sizes = [g0, g1, g2];
-    let (ts, ds) = if conv == 0 { (",", ".") } else { (".", ",") };
+    let (ts, ds) = match conv { 0 => (",", "."), 1 => (".", ","), 2 => ("", "."), _ => ("", ",") };
     let mut written = String::new();
     let mut canonical = String::new();
     if sign == 1 { written.push('-'); canonical.push('-'); } else if sign == 2 { written.push('+'); }
@@ -820,3 +843,47 @@ pub fn m_replay_radix_literal() {
 }
 #[cfg(kani)]
 pub fn m_replay_radix_literal() {}
+
+/// '<date> at <number or time>' natively: (the operand is a number, the number): no panic; an hour 0..23 gives that date at N o'clock
+#[cfg(not(kani))]
+pub fn m_replay_at_date() {
+    let is_number: bool = vany(); let x: f64 = vany();
+    let cfg = blank_config();
+    let s = Session::new();
+    let tk = mk_tokinizer(&cfg, &s);
+    let day = NaiveDate::from_ymd_opt(2021, 6, 15).unwrap();
+    let mut f: Map<String, Rc<TokenInfo>> = Map::new();
+    f.insert("source".to_string(), mk_info(0, 1, Some(TokenType::Date(day, tz0()))));
+    let t = if is_number { TokenType::Number(x, NumberType::Decimal) } else { TokenType::Time(day.and_hms_opt(10, 30, 15).unwrap(), tz0()) };
+    f.insert("time".to_string(), mk_info(2, 3, Some(t)));
+    let r = crate::tokinizer::verif_k_local::at_date(&cfg, &tk, &f);
+    if !is_number {
+        match r { Ok(TokenType::DateTime(d, _)) => assert!(d == day.and_hms_opt(10, 30, 15).unwrap()), _ => assert!(false) }
+    } else if x >= 0.0 && x < 24.0 {
+        match r { Ok(TokenType::DateTime(d, _)) => assert!(d == day.and_hms_opt(x as u32, 0, 0).unwrap()), _ => assert!(false) }
+    } else if x >= 24.0 {
+        assert!(r.is_err());
+    }
+}
+#[cfg(kani)]
+pub fn m_replay_at_date() {}
+
+/// a date-time stored in a variable and read back by a rule natively: 'a = N to ZONE' then 'a as unix' is N
+#[cfg(not(kani))]
+pub fn m_replay_variable_operand() {
+    let _which: u8 = vany();
+    let mut calc = crate::SmartCalc::default();
+    calc.set_decimal_seperator(".".to_string());
+    calc.set_thousand_separator(",".to_string());
+    let out = |r: &crate::smartcalc::ExecuteResult, i: usize| match &r.lines[i] { Some(l) => match &l.result { Ok(x) => x.output.clone(), Err(e) => e.clone() }, None => String::new() };
+    let r = calc.execute("en", "a = 1000000000 to EST\na as unix\nb = 10:30 EST\nb to UTC\nc = 90 minutes\nc as hours\nd = $12\nd to usd");
+    assert!(r.lines.len() == 8);
+    assert!(out(&r, 1) == "1000000000");
+    assert!(out(&r, 3).starts_with("15:30"));
+    assert!(out(&r, 7).contains("12"));
+    calc.set_timezone("CET".to_string()).expect("zone");
+    let r2 = calc.execute("en", "a = 1000000000 to date\na as unix");
+    assert!(out(&r2, 1) == "1000000000");
+}
+#[cfg(kani)]
+pub fn m_replay_variable_operand() {}
